@@ -26,8 +26,9 @@ TEMPLATES = {
     "cse": {"A1": 1, "A2": 2, "B1": ("cse", "B1:B2", "=A1:A2*2"), "C1": "=SUM(B1:B2)", "C2": "=B2+1"},
     "ifs": {"A1": 1, "A2": 5, "B1": "=IF(A1,A2,0-A2)", "B2": '=A1&""', "C1": "=B1+1", "C2": "=ISLOGICAL(A1)"},
     "name": {"A1": 2, "A2": 3, "B1": "=total*2", "C1": "=B1+A2", "__names__": {"total": "Sheet!$A$1"}},
+    "cseiferr": {"A1": 1, "A2": 2, "A3": 3, "C1": "=IFERROR(A1:A3,9)", "E1": ("cse", "E1:E3", "=A1:A3*C1")},
     "twosheet": {"A1": 1, "A2": 2, "B1": "=Other!A1+A1", "C1": "=SUM(Other!A1:A2)+B1",
-                 "__other__": {"A1": 10, "A2": "=Sheet!A2*3"}},
+                 "__other__": {"A1": 10, "A2": "=Sheet!A2*3", "A3": 7, "A4": "=A3+A1"}},
 }
 
 
